@@ -61,7 +61,25 @@ func SetTable(t Table) {
 		log.Print("[WARN] Ignoring nil routing table")
 		return
 	}
+	t.inheritCursors(GetTable())
 	table.Store(t)
+}
+
+// inheritCursors lets the routes of t continue the round-robin of the routes
+// with the same host and path in old. A new table is built from scratch for
+// every change in the registry: without this every route would start at the
+// first slot of its ring again, also the routes which did not change, and the
+// lookups of a route would not be shared out evenly among its targets. The
+// cursor is shared, not copied: lookups which still run on the old table and
+// lookups on the new one draw from the same sequence. t must not be in use yet.
+func (t Table) inheritCursors(old Table) {
+	for host, routes := range t {
+		for _, r := range routes {
+			if o := old[host].find(r.Path); o != nil && o != r && o.cursor != nil {
+				r.cursor = o.cursor
+			}
+		}
+	}
 }
 
 // Table contains a set of routes grouped by host.
@@ -174,7 +192,7 @@ func (t Table) addRoute(d *RouteDef) error {
 		if err != nil {
 			return err
 		}
-		r := &Route{Host: host, Path: path, Glob: g}
+		r := &Route{Host: host, Path: path, Glob: g, cursor: new(uint64)}
 		r.addTarget(d.Service, targetURL, d.Weight, d.Tags, d.Opts)
 		t[host] = Routes{r}
 
@@ -184,7 +202,7 @@ func (t Table) addRoute(d *RouteDef) error {
 		if err != nil {
 			return err
 		}
-		r := &Route{Host: host, Path: path, Glob: g}
+		r := &Route{Host: host, Path: path, Glob: g, cursor: new(uint64)}
 		r.addTarget(d.Service, targetURL, d.Weight, d.Tags, d.Opts)
 		t[host] = append(t[host], r)
 
